@@ -55,16 +55,35 @@ def main(argv) -> int:
         return 2
     mod = importlib.import_module(CHECKS[args.id])
 
-    if args.replay:
-        return replay(mod, args.replay)
+    scratch = _make_scratch_base()
     try:
-        return mod.main(args.tier, seed, args)
-    except Exception as e:
-        import traceback
+        if args.replay:
+            return replay(mod, args.replay)
+        try:
+            return mod.main(args.tier, seed, args)
+        except Exception as e:
+            import traceback
 
-        traceback.print_exc()
-        print(f"HARNESS-ERROR property={args.id}: {type(e).__name__}: {e}", file=sys.stderr)
-        return 2
+            traceback.print_exc()
+            print(f"HARNESS-ERROR property={args.id}: {type(e).__name__}: {e}", file=sys.stderr)
+            return 2
+    finally:
+        import shutil
+
+        shutil.rmtree(scratch, ignore_errors=True)
+
+
+def _make_scratch_base() -> str:
+    """Everything this invocation (and its worker processes) creates on disk lives here and is removed at the end."""
+    top = "/dev/shm" if os.path.isdir("/dev/shm") and os.access("/dev/shm", os.W_OK) else None
+    if top is None:
+        import tempfile
+
+        top = tempfile.gettempdir()
+    d = os.path.join(top, f"ovrun-{os.getpid()}")
+    os.makedirs(d, exist_ok=True)
+    os.environ["VERIF_SCRATCH_BASE"] = d
+    return d
 
 
 def replay(mod, path: str) -> int:
